@@ -13,7 +13,7 @@
                          trying the given rules (terms for `refine`) and the hypotheses first; side goals that are not
                          `Tr`/`Inv` goals are left to the caller
   * generic results      `inv_emit … inv_parseBodyM` (no file system access), `PathOk`/`RenameOk`/`SecOk`,
-                         `inv_opCreat … inv_refuseToPatch`, `inv_processSection`, `inv_sectionLoop`, `tr_finalizeDeferred`,
+                         `inv_opCreat … inv_makeWritable … inv_refuseToPatch`, `inv_processSection`, `inv_sectionLoop`, `tr_finalizeDeferred`,
                          `tr_processPatchM`, `runPatch_snd`, `runPatch_of_tr`
 -/
 import Lean.Elab.Tactic
@@ -318,18 +318,22 @@ theorem inv_makeBackupFor (hF : Framed I) {o : Options} {p : Bytes} (h : PathOk 
       dm_walk [inv_fsExists _, inv_opRename hF hr, inv_opCreat hF h]
     exact this.out _ (hF.frame s _ hs rfl rfl rfl rfl rfl rfl rfl)
   · exact hs
-theorem inv_writePatchedResult (hF : Framed I) {out : Bytes} (h : PathOk I out)
+theorem inv_makeWritable (hF : Framed I) {p : Bytes} (h : PathOk I p) (perm : PermResult) : Inv I (makeWritable perm p) := by
+  unfold makeWritable; dm_walk [inv_opChmod hF h _]
+theorem inv_writePatchedResult (hF : Framed I) {o : Options} {out : Bytes} (h : PathOk I out)
+    (hb : PathOk I (backupName o out)) (hr : RenameOk I out (backupName o out))
     (hw : ∀ w : DeferredWrite, w.dest = out → Stable I (fun s => { s with dWrites := s.dWrites ++ [w] }))
-    (p : Patch) (perm : PermResult) (content : Bytes) : Inv I (writePatchedResult p out perm content) := by
+    (p : Patch) (perm : PermResult) (sb : Bool) (content : Bytes) : Inv I (writePatchedResult o p out perm sb content) := by
   unfold writePatchedResult
-  dm_walk [inv_ensureParentDirs hF h, inv_writeFile hF h _, inv_permissionCallback hF h _ _,
+  dm_walk [inv_ensureParentDirs hF h, inv_writeFile hF h _, inv_permissionCallback hF h _ _, inv_makeWritable hF h _,
+    inv_makeBackupFor hF hb hr,
     inv_doOp hF.tick (h.symlink _ _ ?_), inv_modify (hw _ rfl)]
 
-theorem inv_fixPermissionsIfNeeded (hF : Framed I) {o : Options} {out : Bytes} (h : o.dryRun = false → PathOk I out) :
+/-- `fix_permissions_if_needed` only reads the mode and reports: no path condition is needed any more -/
+theorem inv_fixPermissionsIfNeeded (hF : Framed I) (o : Options) (out : Bytes) :
     Inv I (fixPermissionsIfNeeded o out) := by
   unfold fixPermissionsIfNeeded
-  dm_walk [inv_fsGetPerms _, inv_emit hF _, inv_opChmod hF (h ?_) _]
-  all_goals simp_all
+  dm_walk [inv_fsGetPerms _, inv_emit hF _]
 
 theorem inv_refuseToPatch (hF : Framed I) {o : Options} {out : Bytes} (h : o.dryRun = false → PathOk I (rejectPath o out))
     (p : Patch) : Inv I (refuseToPatch o out p) := by
@@ -367,14 +371,14 @@ theorem inv_processSection {I : DState → Prop} {I' : Bytes → Bytes → DStat
     inv_fsExists _, inv_fsIsRegular _, inv_fsGetPerms _,
     inv_parseBodyM (hF' _ _) _ _, inv_emit (hF' _ _) _, inv_failNow (hF' _ _), inv_checkWithUser (hF' _ _) _ _,
     inv_refuseToPatch (hF' _ _) (fun h => (hlive h _ _).pRej) _,
-    inv_fixPermissionsIfNeeded (hF' _ _) (fun h => (hlive h _ _).pOut),
+    inv_fixPermissionsIfNeeded (hF' _ _) _ _,
     inv_ensureParentDirs (hF' _ _) (hlive ?_ _ _).pRej,
     inv_ensureParentDirs (hF' _ _) (hlive ?_ _ _).pOut,
     inv_writeFile (hF' _ _) (hlive ?_ _ _).pRej _,
     inv_makeBackupFor (hF' _ _) (hlive ?_ _ _).pBak (hlive ?_ _ _).ren,
     inv_removeFileAndEmptyParents (hF' _ _) (hlive ?_ _ _).pOut,
     inv_removeFileAndEmptyParents (hF' _ _) (hlive ?_ _ _).pFtp,
-    inv_writePatchedResult (hF' _ _) (hlive ?_ _ _).pOut (hlive ?_ _ _).defW _ _ _,
+    inv_writePatchedResult (hF' _ _) (hlive ?_ _ _).pOut (hlive ?_ _ _).pBak (hlive ?_ _ _).ren (hlive ?_ _ _).defW _ _ _ _,
     inv_modify (hlive ?_ _ _).defR]
   all_goals simp_all
 
@@ -387,21 +391,23 @@ theorem inv_sectionLoop {I : DState → Prop} {o : Options} {format : Format} (h
     dm_walk
 
 /-- `finalizeDeferred` reads the deferred lists once, at its start -/
-theorem tr_finalizeDeferred {P Q : DState → Prop}
-    (h : ∀ s0, P s0 → ∃ I : DState → Prop, Framed I ∧ I s0 ∧ (∀ w ∈ s0.dWrites, PathOk I w.dest) ∧
-      (∀ p ∈ s0.dRemovals, PathOk I p) ∧ ∀ s, I s → Q s) : Tr P finalizeDeferred Q := by
+theorem tr_finalizeDeferred {P Q : DState → Prop} {o : Options}
+    (h : ∀ s0, P s0 → ∃ I : DState → Prop, Framed I ∧ I s0 ∧
+      (∀ w ∈ s0.dWrites, PathOk I w.dest ∧ PathOk I (backupName o w.dest) ∧ RenameOk I w.dest (backupName o w.dest)) ∧
+      (∀ p ∈ s0.dRemovals, PathOk I p) ∧ ∀ s, I s → Q s) : Tr P (finalizeDeferred o) Q := by
   unfold finalizeDeferred
   refine tr_get_bind (fun s0 hs0 => ?_)
   obtain ⟨I, hF, hI, hw, hr, hQ⟩ := h s0 hs0
   refine tr_weaken (P' := I) (Q' := I) ?_ (fun s hs => hs ▸ hI) hQ
-  dm_walk [inv_ensureParentDirs hF (hw _ ?_), inv_writeFile hF (hw _ ?_) _, inv_permissionCallback hF (hw _ ?_) _ _,
+  dm_walk [inv_ensureParentDirs hF (hw _ ?_).1, inv_writeFile hF (hw _ ?_).1 _, inv_permissionCallback hF (hw _ ?_).1 _ _,
+    inv_makeWritable hF (hw _ ?_).1 _, inv_makeBackupFor hF (hw _ ?_).2.1 (hw _ ?_).2.2,
     inv_removeFileAndEmptyParents hF (hr _ ?_)]
 
 /-- `process_patch`: `P` at the start (also after `-d`), `I` from then on -/
 theorem tr_processPatchM {P I : DState → Prop} {o : Options} (hF : Framed I)
     (h0 : ∀ s, P s → I s) (hcwd : ∀ s, P s → I { s with cwd := o.directory })
     (hct : Inv I createTemp)
-    (hsec : ∀ format, Inv I (processSection o format)) (hfin : Inv I finalizeDeferred) :
+    (hsec : ∀ format, Inv I (processSection o format)) (hfin : Inv I (finalizeDeferred o)) :
     Tr P (processPatchM o) I := by
   unfold processPatchM
   dm_intro_let jp
